@@ -60,6 +60,8 @@ type parked struct {
 	batches int
 }
 
+var burstSeq int
+
 func describeEvent(e *gostatsd.Event) string {
 	t := append([]string(nil), e.Tags...)
 	sort.Strings(t)
@@ -190,6 +192,28 @@ func TestCloudStageHistories(t *testing.T) {
 				}
 				history = append(history, fmt.Sprintf("metrics%v", gen.DescribeMetrics(pts)))
 				ch.DispatchMetricMap(ctx, mm)
+				expectLookups(newly)
+				waitDeliveries()
+			},
+			"burst": func(t *rapid.T) {
+				// one batch with datapoints from 9..20 hosts never seen before: that many lookups become pending at once
+				if rapid.IntRange(0, 3).Draw(t, "burst-now") != 0 {
+					t.Skip("no burst now")
+				}
+				n := rapid.IntRange(9, 20).Draw(t, "new-hosts")
+				var pts []*gostatsd.Metric
+				var newly []gostatsd.Source
+				for i := 0; i < n; i++ {
+					burstSeq++
+					src := gostatsd.Source(fmt.Sprintf("10.2.%d.%d", burstSeq/250, burstSeq%250))
+					m := gen.Datapoint(rapid.Int64Range(1, 3)).Draw(t, "dp")
+					m.Source = src
+					pts = append(pts, m)
+					park[src] = &parked{points: []*gostatsd.Metric{m}, batches: 1}
+					newly = append(newly, src)
+				}
+				history = append(history, fmt.Sprintf("burst of %d new hosts", n))
+				ch.DispatchMetricMap(ctx, gen.MapFromMetrics(pts))
 				expectLookups(newly)
 				waitDeliveries()
 			},
